@@ -13,13 +13,14 @@ Record rend := mkrend {
   r_chain : bool;                  (* fields split over the inheritance chain *)
   r_func : bool;                   (* classes defined inside a function that is still executing *)
   r_types : res (list (string * cty));   (* wrapper field list with canonicalised FieldWrapper.type, or how set-up ended *)
+  r_kinds : list (string * wkind);       (* per member: option (FieldWrapper), nested group, optional nested group *)
   r_digest : list string           (* one canonical outcome per argv *)
 }.
 
 Inductive case :=
 | CaseNorm (t : texp) (o_eval : res rty) (o_norm : res rty)
 | CaseRw (s : string) (o_rw : res string) (check_eval : bool) (o_ev : res cty)
-| CaseTree (flat : list (string * fdecl)) (chain : list (list (string * fdecl))) (rends : list rend).
+| CaseTree (dcs : list string) (flat : list (string * fdecl)) (chain : list (list (string * fdecl))) (rends : list rend).
 
 Definition pair_eqb {A B} (ea : A -> A -> bool) (eb : B -> B -> bool) (x y : A * B) : bool :=
   ea (fst x) (fst y) && eb (snd x) (snd y).
@@ -40,16 +41,36 @@ Definition model_types (r : rend) (flat : list (string * fdecl)) (chain : list (
   : res (list (string * cty)) :=
   field_types_gen r.(r_sp) r.(r_postponed) (if r.(r_chain) then chain_fields chain else chain_fields [flat]).
 
+(* which members DataclassWrapper turns into nested groups: the dispatch on the RESOLVED type of each member *)
+Definition model_kinds (dcs : list string) (r : rend) (flat : list (string * fdecl)) (chain : list (list (string * fdecl)))
+  : res (list (string * wkind)) :=
+  mapM (fun kv =>
+          bind (resolve_gen r.(r_postponed) (fkind_eqb (f_kind (snd kv)) KInitVar) (render r.(r_sp) (f_ty (snd kv))))
+               (fun o => bind (wrapper_kind_gen dcs o (f_dnone (snd kv))) (fun k => Ok (fst kv, k))))
+       (wrapper_fields_gen (if r.(r_chain) then chain_fields chain else chain_fields [flat])).
+
+Definition kinds_eqb := list_eqb (pair_eqb String.eqb wkind_eqb).
+
+Definition spec_kinds (dcs : list string) (l : list (string * fdecl)) : option (list (string * wkind)) :=
+  fold_right (fun kv acc =>
+                match spec_wkind dcs (f_ty (snd kv)) (f_dnone (snd kv)), acc with
+                | Some k, Some t => Some ((fst kv, k) :: t)
+                | _, _ => None
+                end)
+             (Some [])
+             (filter (fun kv => negb (fkind_eqb (f_kind (snd kv)) KClassVar) && f_init (snd kv) && f_cmd (snd kv)) l).
+
 Definition decl_eqb (a b : string * fdecl) : bool :=
   String.eqb (fst a) (fst b) && cty_eqb (f_ty (snd a)) (f_ty (snd b)) && fkind_eqb (f_kind (snd a)) (f_kind (snd b))
-  && Bool.eqb (f_init (snd a)) (f_init (snd b)) && Bool.eqb (f_cmd (snd a)) (f_cmd (snd b)).
+  && Bool.eqb (f_init (snd a)) (f_init (snd b)) && Bool.eqb (f_cmd (snd a)) (f_cmd (snd b))
+  && Bool.eqb (f_dnone (snd a)) (f_dnone (snd b)).
 
 (* the generator's contract: the flat rendering and the chain rendering are the same abstract class, and every type
    is in the CLI grammar *)
 Definition in_scope (c : case) : bool :=
   match c with
-  | CaseTree flat chain _ =>
-      list_eqb decl_eqb (spec_flat [flat]) flat
+  | CaseTree dcs flat chain _ =>
+      negb (str_in "NoneType" dcs) && list_eqb decl_eqb (spec_flat [flat]) flat
       && list_eqb decl_eqb (spec_flat chain) flat
       && forallb (fun kv => wf_cty (f_ty (snd kv))) flat
   | _ => true
@@ -63,8 +84,13 @@ Definition model_ok (c : case) : bool :=
   | CaseRw s o_rw check_eval o_ev =>
       res_eqb String.eqb (bind (old_style_gen (chars s)) (fun l => Ok (unchars l))) o_rw
       && (negb check_eval || res_eqb cty_eqb (model_evaluate_string_annotation (chars s)) o_ev)
-  | CaseTree flat chain rends =>
-      forallb (fun r => types_eqb (model_types r flat chain) r.(r_types)) rends
+  | CaseTree dcs flat chain rends =>
+      forallb (fun r => types_eqb (model_types r flat chain) r.(r_types)
+                        && match r.(r_types), model_kinds dcs r flat chain with
+                           | Ok _, Ok ks => kinds_eqb ks r.(r_kinds)
+                           | Ok _, Err _ => false
+                           | Err _, _ => true
+                           end) rends
   end.
 
 (* ---------- what the property demands of the observed behaviour ---------- *)
@@ -103,9 +129,13 @@ Definition spec_ok (c : case) : bool :=
               && (negb check_eval || res_eqb cty_eqb o_ev (Ok c))
           end
       end
-  | CaseTree flat chain rends =>
+  | CaseTree dcs flat chain rends =>
       let want := Ok (spec_cli_fields (spec_flat chain)) in
       forallb (fun r => types_eqb r.(r_types) want) rends
+      && match spec_kinds dcs (spec_flat chain) with
+         | Some ks => forallb (fun r => kinds_eqb r.(r_kinds) ks) rends
+         | None => false
+         end
       && match rends with
          | [] => true
          | r0 :: rest => forallb (fun r => strs_eqb r.(r_digest) r0.(r_digest)) rest
